@@ -533,6 +533,21 @@ DOMNode *DOMDocumentImpl::insertBefore(DOMNode *newChild, DOMNode *refChild)
         )
         throw DOMException(DOMException::HIERARCHY_REQUEST_ERR,0, getMemoryManager());
 
+    // The children of a document fragment are inserted one by one; find out
+    // whether they would leave us with two elements before any of them is moved
+    if(newChild->getNodeType() == DOMNode::DOCUMENT_FRAGMENT_NODE)
+    {
+        bool hasElement = (fDocElement!=0);
+        for(DOMNode* kid=newChild->getFirstChild(); kid!=0; kid=kid->getNextSibling())
+        {
+            if(kid->getNodeType() != DOMNode::ELEMENT_NODE)
+                continue;
+            if(hasElement)
+                throw DOMException(DOMException::HIERARCHY_REQUEST_ERR,0, getMemoryManager());
+            hasElement = true;
+        }
+    }
+
     // if the newChild is a documenttype node created from domimplementation, set the ownerDoc first
     if ((newChild->getNodeType() == DOMNode::DOCUMENT_TYPE_NODE) && !newChild->getOwnerDocument())
         ((DOMDocumentTypeImpl*)newChild)->setOwnerDocument(this);
